@@ -22,10 +22,9 @@ func init() {
 }
 
 const (
-	c09Swamp        = "app/core/hydra/swamp/swamp.go"
-	c09Patch        = "app/core/hydra/swamp/swamp_patch.go"
-	c09PatchExpired = "app/core/hydra/swamp/swamp_patch_expired.go"
-	c09Gateway      = "app/server/gateway/gateway.go"
+	c09Swamp   = "app/core/hydra/swamp/swamp.go"
+	c09Patch   = "app/core/hydra/swamp/swamp_patch.go"
+	c09Gateway = "app/server/gateway/gateway.go"
 )
 
 var c09Increments = []string{"IncrementUint8", "IncrementUint16", "IncrementUint32", "IncrementUint64", "IncrementInt8",
@@ -220,11 +219,6 @@ func c09Recheck(fs *Facts, f *File) {
 			viaLock := len(gw.CallsSuffix(fn, ".LockTreasure")) > 0 || strings.Contains(gw.Str(fn), ".LockTreasure\n") || strings.Contains(gw.Str(fn), ".LockTreasure")
 			viaExisting := strings.Contains(gw.Str(fn), ".LockExistingTreasure")
 			good := !direct && (viaLock || viaExisting) && (!viaLock || okLock) && (!viaExisting || okExisting)
-			// a body that lets its guard go and then deletes the key unconditionally acts on what it saw under the
-			// guard it no longer holds (audit7 D6: Uint32SliceDelete + DeleteTreasure lost an acknowledged push)
-			if len(gw.CallsSuffix(fn, ".DeleteTreasure")) > 0 {
-				good = false
-			}
 			if good {
 				gwYes++
 			} else {
@@ -466,13 +460,6 @@ func c09Shape(fs *Facts, sw *File) {
 	items = append(items, item{sw, c09Swamp, "swamp", ccDeleteHandlerName(sw)}, item{sw, c09Swamp, "swamp", "CloneAndDeleteTreasuresByKeys"})
 	if pf, err := Load(c09Patch); err == nil {
 		items = append(items, item{pf, c09Patch, "swamp", "PatchFields"})
-		// the per-record body of PatchExpired answers with the expiration time of the record (audit7 D7)
-		if pe, err := Load(c09PatchExpired); err == nil && pe.Func("swamp", "applyPatchExpiredOne") != nil {
-			items = append(items, item{pe, c09PatchExpired, "swamp", "applyPatchExpiredOne"})
-		} else {
-			fs.Enum("bodyShape", "unknown", c09PatchExpired)
-			return
-		}
 	} else {
 		fs.Enum("bodyShape", "unknown", c09Patch)
 		return
